@@ -1273,6 +1273,33 @@ def _resolve_parity(term: Sym, v: Sym, p: int) -> Sym:
     return rec(term)
 
 
+def _join_forked(decs):
+    """paths that a conditional expression forked (same decisions except one atom, decided both ways) joined back into one
+    entry whose value is the conditional expression"""
+    decs = list(decs)
+    changed = True
+    while changed and len(decs) > 1:
+        changed = False
+        for i in range(len(decs)):
+            for j in range(i + 1, len(decs)):
+                a, b = decs[i], decs[j]
+                if a[1] != b[1] or a[3] is None or b[3] is None or set(a[0]) != set(b[0]):
+                    continue
+                diff = [k for k in a[0] if a[0][k] != b[0][k]]
+                if len(diff) != 1:
+                    continue
+                k = diff[0]
+                yes, no = (a, b) if a[0][k] else (b, a)
+                val = {x: y for x, y in a[0].items() if x != k}
+                decs[i] = (val, a[1], a[2], ("ife", k, yes[3], no[3]))
+                del decs[j]
+                changed = True
+                break
+            if changed:
+                break
+    return decs
+
+
 def rule_Z1(ctx, rule: str = "Z1") -> None:
     """encoder: enc(v) = 2v for v >= 0 and -2v-1 for v < 0 over the type's range;
     decoder: dec(2k) = k and dec(2k+1) = -k-1.  Decided with linear normal forms per case and intervals."""
@@ -1320,7 +1347,7 @@ def rule_Z1(ctx, rule: str = "Z1") -> None:
             ctx.proved(rule, f"zigzag-encode[{t}]", loc, show(term))
     locd = mod.loc(mod.func("Message._postprocess_single"))
     for t, bits in (("sint32", 32), ("sint64", 64)):
-        decs = [d for d in m.dec[(t, 0)] if d[1] != "raise"]
+        decs = _join_forked([d for d in m.dec[(t, 0)] if d[1] != "raise"])
         if len(decs) != 1 or decs[0][3] is None:
             ctx.inconclusive(rule, f"zigzag-decode[{t}]", f"{len(decs)} decoder terms", locd)
             continue
